@@ -262,3 +262,22 @@ MANIFEST_TEXT["C11"] = dict(
     text="The harness keeps every ShapeConnectionPin it created and, after each transaction, checks from the API boundary that each attached route end sits exactly on a pin of its class (whose position equals the harness' own evaluation of the offset rule for the shape's current rectangle), leaves in a permitted direction, that exclusive pins are not shared, junction ends sit on the junction and checkpoints are visited in order. Held on the executions observed.",
     note="Trusts the harness' reading of the documented offset/direction rules.",
 )
+
+CHECKS["C12"] = dict(
+    level="exploration",
+    rule=("cases = obstacle fields of 3-10 rectangles with centre pins; 1-2 hyperedges with 3-6 terminals each, given either as a junction/connector tree with junctions placed at random in "
+          "free space (improvement with moving only / with adding and deleting junctions; full rerouting registered by junction) or as a terminal list (full rerouting); followed by 0-3 "
+          "transactions that move shapes. After every transaction the hyperedge graph is rebuilt from Router::connRefs, m_obstacles and ConnRef::endpointConnEnds(). "
+          "non-trivial = the router reported new/deleted objects or moved a junction"),
+    workloads=[dict(harness="c12_hyper", mode="hyper", quick=24000, thorough=300000, watchdog=120, san_thorough=5000)],
+    min_nontrivial=dict(quick=1500, thorough=30000),
+    max_inconclusive=0.05,
+    require_obs=["connectors_checked", "transactions_changing_topology", "new_junctions_reported", "deleted_junctions_reported", "moves"],
+    assumptions=["a junction end may equal JunctionRef::position() or recommendedPosition(); a terminal end must lie in the closed rectangle of its shape",
+                 "deleted junctions may still be among the router's obstacles (freed at the router's convenience) but must carry no live connector"],
+)
+MANIFEST_TEXT["C12"] = dict(
+    technique="runtime monitor over inputs and histories: hyperedge graph rebuilt from public router state after every transaction; union-find tree checks, terminal multiset, object-list consistency, route ends and obstacle avoidance",
+    text="After every transaction the monitor reconstructs each hyperedge from the live connectors' typed ends and checks that it is one tree over exactly the original terminals, that reported new/deleted objects agree with the live objects, and that every route joins its two attachments without crossing a shape. Held on the executions observed; teardown is additionally leak-checked in C15.",
+    note="Reads Router::connRefs and Router::m_obstacles (public members) as the live-object ground truth.",
+)
